@@ -259,6 +259,10 @@ def pure(f, operands):
     result list aliasing the member list of its leading operand)."""
     before = [obs_origin(x) for x in operands]
     r1 = guarded(f, obs_origin)
+    # the registry of sources (an index used by serialisation) is emptied in between: origin arithmetic compares sources,
+    # not their registry entries (seeded change C15-12)
+    from pyoak import origin as O
+    O.Source.clear_registry()
     r2 = guarded(f, obs_origin)
     after = [obs_origin(x) for x in operands]
     if norm(before) != norm(after):
